@@ -28,16 +28,8 @@ import (
 type BaseOutSession struct {
 	cmdSession IInterleavedPacketWriter
 
-	sdpCtx sdp.LogicContext
-
-	audioRtpConn     *nazanet.UdpConnection
-	videoRtpConn     *nazanet.UdpConnection
-	audioRtcpConn    *nazanet.UdpConnection
-	videoRtcpConn    *nazanet.UdpConnection
-	audioRtpChannel  int
-	audioRtcpChannel int
-	videoRtpChannel  int
-	videoRtcpChannel int
+	// udp连接和interleaved channel，见 transportHolder
+	tp transportHolder
 
 	sessionStat base.BasicSessionStat
 
@@ -56,8 +48,7 @@ func NewBaseOutSession(sessionType base.SessionType, cmdSession IInterleavedPack
 	s := &BaseOutSession{
 		cmdSession:       cmdSession,
 		sessionStat:      base.NewBasicSessionStat(sessionType, ""),
-		audioRtpChannel:  -1,
-		videoRtpChannel:  -1,
+		tp:               newTransportHolder(-1),
 		debugLogMaxCount: 3,
 		waitChan:         make(chan error, 1),
 	}
@@ -66,17 +57,28 @@ func NewBaseOutSession(sessionType base.SessionType, cmdSession IInterleavedPack
 }
 
 func (session *BaseOutSession) InitWithSdp(sdpCtx sdp.LogicContext) {
-	session.sdpCtx = sdpCtx
+	session.tp.setSdp(sdpCtx)
 }
 
 func (session *BaseOutSession) SetupWithConn(uri string, rtpConn, rtcpConn *nazanet.UdpConnection) error {
-	if session.sdpCtx.IsAudioUri(uri) {
-		session.audioRtpConn = rtpConn
-		session.audioRtcpConn = rtcpConn
-	} else if session.sdpCtx.IsVideoUri(uri) {
-		session.videoRtpConn = rtpConn
-		session.videoRtcpConn = rtcpConn
-	} else {
+	sdpCtx := session.tp.sdp()
+	if sdpCtx == nil {
+		return nazaerrors.Wrap(base.ErrRtsp)
+	}
+	isAudio, isVideo := sdpCtx.IsAudioUri(uri), sdpCtx.IsVideoUri(uri)
+	if !isAudio && !isVideo {
+		return nazaerrors.Wrap(base.ErrRtsp)
+	}
+	if !session.tp.update(func(t *transport) {
+		if isAudio {
+			t.audioRtpConn, t.audioRtcpConn = rtpConn, rtcpConn
+		} else {
+			t.videoRtpConn, t.videoRtcpConn = rtpConn, rtcpConn
+		}
+	}) {
+		// 已经被dispose（比如被踢），这两个连接不会再有人释放
+		_ = rtpConn.Dispose()
+		_ = rtcpConn.Dispose()
 		return nazaerrors.Wrap(base.ErrRtsp)
 	}
 
@@ -87,17 +89,24 @@ func (session *BaseOutSession) SetupWithConn(uri string, rtpConn, rtcpConn *naza
 }
 
 func (session *BaseOutSession) SetupWithChannel(uri string, rtpChannel, rtcpChannel int) error {
-	if session.sdpCtx.IsAudioUri(uri) {
-		session.audioRtpChannel = rtpChannel
-		session.audioRtcpChannel = rtcpChannel
-		return nil
-	} else if session.sdpCtx.IsVideoUri(uri) {
-		session.videoRtpChannel = rtpChannel
-		session.videoRtcpChannel = rtcpChannel
-		return nil
+	sdpCtx := session.tp.sdp()
+	if sdpCtx == nil {
+		return nazaerrors.Wrap(base.ErrRtsp)
 	}
-
-	return nazaerrors.Wrap(base.ErrRtsp)
+	isAudio, isVideo := sdpCtx.IsAudioUri(uri), sdpCtx.IsVideoUri(uri)
+	if !isAudio && !isVideo {
+		return nazaerrors.Wrap(base.ErrRtsp)
+	}
+	if !session.tp.update(func(t *transport) {
+		if isAudio {
+			t.audioRtpChannel, t.audioRtcpChannel = rtpChannel, rtcpChannel
+		} else {
+			t.videoRtpChannel, t.videoRtcpChannel = rtpChannel, rtcpChannel
+		}
+	}) {
+		return nazaerrors.Wrap(base.ErrRtsp)
+	}
+	return nil
 }
 
 // ---------------------------------------------------------------------------------------------------------------------
@@ -119,14 +128,15 @@ func (session *BaseOutSession) WaitChan() <-chan error {
 // ---------------------------------------------------------------------------------------------------------------------
 
 func (session *BaseOutSession) HandleInterleavedPacket(b []byte, channel int) {
+	tp := session.tp.get()
 	switch channel {
-	case session.audioRtpChannel:
+	case tp.audioRtpChannel:
 		fallthrough
-	case session.videoRtpChannel:
+	case tp.videoRtpChannel:
 		Log.Warnf("[%s] not supposed to read packet in rtp channel of BaseOutSession. channel=%d, len=%d", session.UniqueKey(), channel, len(b))
-	case session.audioRtcpChannel:
+	case tp.audioRtcpChannel:
 		fallthrough
-	case session.videoRtcpChannel:
+	case tp.videoRtcpChannel:
 		Log.Debugf("[%s] read interleaved rtcp packet. b=%s", session.UniqueKey(), hex.Dump(nazabytes.Prefix(b, 32)))
 	default:
 		Log.Errorf("[%s] read interleaved packet but channel invalid. channel=%d", session.UniqueKey(), channel)
@@ -139,35 +149,40 @@ func (session *BaseOutSession) WriteRtpPacket(packet rtprtcp.RtpPacket) error {
 	// conn nor an interleaved channel: its packets go nowhere and must not be counted as written
 	// (the alive check compares the write counter, a stalled player would never time out).
 	var handed bool
+	tp := session.tp.get()
+	sdpCtx := session.tp.sdp()
+	if sdpCtx == nil {
+		return nazaerrors.Wrap(base.ErrRtsp)
+	}
 
 	// 发送数据时，保证和sdp的原始类型对应
 	t := int(packet.Header.PacketType)
-	if session.sdpCtx.IsAudioPayloadTypeOrigin(t) {
+	if sdpCtx.IsAudioPayloadTypeOrigin(t) {
 		if session.loggedWriteAudioRtpCount < session.debugLogMaxCount {
 			Log.Debugf("[%s] LOGPACKET. write audio rtp=%+v", session.UniqueKey(), packet.Header)
 			session.loggedWriteAudioRtpCount++
 		}
 
-		if session.audioRtpConn != nil {
-			err = session.audioRtpConn.Write(packet.Raw)
+		if tp.audioRtpConn != nil {
+			err = tp.audioRtpConn.Write(packet.Raw)
 			handed = true
 		}
-		if session.audioRtpChannel != -1 {
-			err = session.cmdSession.WriteInterleavedPacket(packet.Raw, session.audioRtpChannel)
+		if tp.audioRtpChannel != -1 {
+			err = session.cmdSession.WriteInterleavedPacket(packet.Raw, tp.audioRtpChannel)
 			handed = true
 		}
-	} else if session.sdpCtx.IsVideoPayloadTypeOrigin(t) {
+	} else if sdpCtx.IsVideoPayloadTypeOrigin(t) {
 		if session.loggedWriteVideoRtpCount < session.debugLogMaxCount {
 			Log.Debugf("[%s] LOGPACKET. write video rtp=%+v", session.UniqueKey(), packet.Header)
 			session.loggedWriteVideoRtpCount++
 		}
 
-		if session.videoRtpConn != nil {
-			err = session.videoRtpConn.Write(packet.Raw)
+		if tp.videoRtpConn != nil {
+			err = tp.videoRtpConn.Write(packet.Raw)
 			handed = true
 		}
-		if session.videoRtpChannel != -1 {
-			err = session.cmdSession.WriteInterleavedPacket(packet.Raw, session.videoRtpChannel)
+		if tp.videoRtpChannel != -1 {
+			err = session.cmdSession.WriteInterleavedPacket(packet.Raw, tp.videoRtpChannel)
 			handed = true
 		}
 	} else {
@@ -226,17 +241,18 @@ func (session *BaseOutSession) dispose(err error) error {
 	session.disposeOnce.Do(func() {
 		Log.Infof("[%s] lifecycle dispose rtsp BaseOutSession. session=%p", session.UniqueKey(), session)
 		var e1, e2, e3, e4 error
-		if session.audioRtpConn != nil {
-			e1 = session.audioRtpConn.Dispose()
+		tp := session.tp.takeForDispose()
+		if tp.audioRtpConn != nil {
+			e1 = tp.audioRtpConn.Dispose()
 		}
-		if session.audioRtcpConn != nil {
-			e2 = session.audioRtcpConn.Dispose()
+		if tp.audioRtcpConn != nil {
+			e2 = tp.audioRtcpConn.Dispose()
 		}
-		if session.videoRtpConn != nil {
-			e3 = session.videoRtpConn.Dispose()
+		if tp.videoRtpConn != nil {
+			e3 = tp.videoRtpConn.Dispose()
 		}
-		if session.videoRtcpConn != nil {
-			e4 = session.videoRtcpConn.Dispose()
+		if tp.videoRtcpConn != nil {
+			e4 = tp.videoRtcpConn.Dispose()
 		}
 
 		session.waitChan <- nil
